@@ -9,7 +9,8 @@ Families (each enumerated completely inside its bound):
 
 S  structure: chains of length L; every template an ordered forest of <= K blocks over the name pool
    {a,b,c} (distinct names per template, any nesting shape), every block independently
-   required/not and with/without ``{{ block.super }}`` (root blocks: no super); names canonical (first
+   required/not (at most R required flags per chain, a deviation bound; R unbounded for the small
+   members) and with/without ``{{ block.super }}`` (root blocks: no super); names canonical (first
    occurrences in the chain appear in the order a,b,c -- block names are interchangeable).
    Every block body is ``[<name><level>`` super? children ``]`` so the output spells the resolution;
    root has marker text around its blocks; every non-root template has stray text after ``extends``
@@ -463,14 +464,13 @@ TIERS: dict[str, dict[str, Any]] = {
         "cycle_tail": 1,
     },
     "thorough": {
-        "S": [(1, 3, UNBOUNDED), (2, 3, UNBOUNDED), (3, 2, UNBOUNDED), (3, 3, 0), (4, 1, UNBOUNDED), (4, 2, 1)],
+        "S": [(1, 3, UNBOUNDED), (2, 3, UNBOUNDED), (3, 2, UNBOUNDED), (3, 3, 0), (4, 1, UNBOUNDED), (4, 2, 0)],
         "D": [(1, 3), (2, 3), (3, 2), (4, 1)],
         "E": [(1, 3), (2, 3), (3, 2), (4, 1)],
         "cycle_tail": 2,
     },
 }
 TARGET_PER_SHARD = {"quick": 2000, "thorough": 25000}
-# rough number of cases per family member, only used to size shards (measured once; not part of the verdict)
 
 
 class C18(Check):
@@ -501,12 +501,13 @@ class C18(Check):
     def bounds(self, tier: str) -> dict[str, Any]:
         t = TIERS[tier]
         return {
-            "S (length, max blocks per template, required flags enumerated)": t["S"],
-            "D (length, max blocks per template), one decoration": t["D"],
-            "E (length, max blocks per template), one error shape": t["E"],
-            "cycles": f"length 1..3, tail 0..{t['cycle_tail']}, every template with no block / block / block with super (<=1)",
-            "names": "pool {a,b,c}, canonical up to renaming",
-            "loops": "(1..2)",
+            "S (chain length, max blocks per template, max required flags in the chain; 99 = unbounded)": t["S"],
+            "D (chain length, max blocks per template): no required flag, exactly one decoration, every site": t["D"],
+            "E (chain length, max blocks per template): no required/super, exactly one error shape, every site": t["E"],
+            "cycles": f"cycle length 1..3 behind a tail of 0..{t['cycle_tail']} templates; every template with no "
+                      "block / a block / (at most one) a block with super",
+            "block names": "pool {a,b,c}, distinct per template, canonical up to renaming; all ordered forest shapes",
+            "loops": "for i in (1..2)", "data": M.DATA, "apis": ["render", "render_async"],
         }
 
     def shards(self, tier: str) -> list[Any]:
